@@ -41,6 +41,7 @@ fn exec_ref(ops: &[Value], o: &'static Objs, tx: Option<Sender<usize>>, rx: Opti
             "st" => { o.ats[u(1)].store(u(2), SeqCst); }
             "ld" => { out.push(o.ats[u(1)].load(SeqCst) as i64); }
             "cvwait" => { let guard = g[0].take().unwrap(); g[0] = Some(o.cv.wait(guard).unwrap()); }
+            "cvwaitz" => { let mut guard = g[0].take().unwrap(); while *guard == 0 { guard = o.cv.wait(guard).unwrap(); } g[0] = Some(guard); }
             "notify_one" => { o.cv.notify_one(); }
             "notify_all" => { o.cv.notify_all(); }
             _ => panic!("op {}", k),
